@@ -44,6 +44,15 @@ def run(tier, replay):
                 V.known("KF_MaprEmptyMessage", b)
             else:
                 V.violation(b["problem"] + " (handler %s, colour %s)" % (b["handler"], b["colour"]), b)
+        agg = vlib.read_ndjson(os.path.join(wd, "c16_agg.ndjson"))
+        aj, ao = os.path.join(wd, "agg.json"), os.path.join(wd, "aggout.json")
+        json.dump(agg, open(aj, "w"))
+        rc, out = vlib.go_test(wd, "./internal/clients/handlers", OV, "TestC16Agg", env={"VERIF_CASES": aj, "VERIF_OUT": ao}, timeout=600)
+        if rc != 0 or not os.path.exists(ao):
+            raise vlib.Inconclusive("aggregate payload harness failed\n" + out[-2500:])
+        ares = json.load(open(ao))
+        for b in ares["bad"] or []:
+            V.violation("AGGREGATE payload: " + b["problem"][:200], b)
         so = os.path.join(wd, "sout.json")
         rc, out = vlib.go_test(wd, "./internal/clients/handlers", OV, "TestC16Streams",
                                env={"VERIF_OUT": so, "VERIF_N": 150 if tier == "quick" else 1500}, timeout=1800)
@@ -57,8 +66,9 @@ def run(tier, replay):
                 V.violation("random stream: " + b["problem"], b)
         nontriv = sum(1 for c in cases if c["nfields"] < need.get(c["prefix"], 1) or c["prefix"] in ("", "A", "AGGREGATE", "."))
         cov = {"states": r.distinct, "transitions": r.generated, "traces_validated_against_impl": len(cases),
-               "evaluations": res["evaluations"] + sres["evaluations"], "distinct_nontrivial": nontriv,
-               "rule": "cases = 9 prefixes x 1..7 fields x 10 kinds of last field x newline (TLC), each x 3 handlers x 2 colour modes; "
+               "evaluations": res["evaluations"] + sres["evaluations"] + ares["evaluations"], "aggregate_payload_shapes": len(agg), "distinct_nontrivial": nontriv,
+               "rule": "cases = 9 prefixes x 1..7 fields x 10 kinds of last field x newline (TLC), each x 3 handlers x 2 colour modes; plus AGGREGATE "
+                       "payload shapes (3 sample counts x part sequences up to 3 over kv/bare/empty/kvkv x trailing delimiter) through the mapr handler; "
                        "non-trivial = fewer fields than the painter indexes, or an empty/aggregate/hidden prefix",
                "exhaustive": True, "samples": cases[3:5] + [{"random_streams": sres["evaluations"]}]}
         return V.finish(cov, ["escape sequences are removed from both renderings before comparing, so content that itself carries ESC codes cannot raise a false alarm",
